@@ -300,3 +300,127 @@ fn decode_once(st: &mut H263State, reader: &mut H263Reader<Growable>, o: Decoder
         Err(_) => "PANIC".into(),
     }
 }
+
+/// `PP <opts> <hex>`: decode one picture, deblock every plane with the strength tabulated for the picture's quantizer,
+/// convert to RGBA.  -> `PP <decode result> [post=ok len=<n> rgba=<fnv> | post=PANIC | post=q0]`
+pub fn pipeline(a: &[&str]) -> String {
+    let o = opts_of(a[0].parse().expect("opts"));
+    let src = Growable(Rc::new(RefCell::new(VecDeque::new())));
+    src.0.borrow_mut().extend(unhex(a[1]));
+    let mut reader = H263Reader::from_source(src.clone());
+    let mut st = H263State::new(o);
+    let r = decode_once(&mut st, &mut reader, o);
+    if r != "ok" {
+        return format!("PP {}", r);
+    }
+    let p = st.get_last_picture().expect("last picture");
+    let q = p.as_header().quantizer as usize;
+    let (w, h) = p.format().into_width_and_height().unwrap_or((0, 0));
+    let (y, cb, cr) = p.as_yuv();
+    let spr = p.chroma_samples_per_row();
+    if q == 0 || q > 31 {
+        return format!("PP ok post=q{}", q);
+    }
+    let strength = h263_rs_deblock::deblock::QUANT_TO_STRENGTH[q];
+    let res = catch_unwind(AssertUnwindSafe(|| {
+        let y2 = h263_rs_deblock::deblock::deblock(y, w as usize, strength);
+        let cb2 = h263_rs_deblock::deblock::deblock(cb, spr, strength);
+        let cr2 = h263_rs_deblock::deblock::deblock(cr, spr, strength);
+        let rgba = h263_rs_yuv::bt601::yuv420_to_rgba(&y2, &cb2, &cr2, w as usize);
+        (rgba.len(), fnv(&rgba))
+    }));
+    match res {
+        Ok((n, hsh)) => format!("PP ok {}x{} q={} post=ok len={} rgba={:016x}", w, h, q, n, hsh),
+        Err(_) => format!("PP ok {}x{} q={} post=PANIC", w, h, q),
+    }
+}
+
+/// `S <threads> <opts> <ops> [|| <opts> <ops>]...`: every thread runs all the histories on its own decoder instances,
+/// interleaved op by op (round robin, rotated by thread index).  -> `S <r1> || <r2> ...` (each the result every thread
+/// obtained for that history) or `S DIFFER ...`
+pub fn schedule(a: &[&str]) -> String {
+    let threads: usize = a[0].parse().expect("threads");
+    let joined = a[1..].join(" ");
+    let hists: Vec<(u32, Vec<String>)> = joined
+        .split("||")
+        .map(|h| {
+            let mut it = h.split_whitespace();
+            let o: u32 = it.next().expect("opts").parse().expect("opts");
+            let ops: Vec<String> = it.next().unwrap_or("").split(';').filter(|s| !s.is_empty()).map(|s| s.to_string()).collect();
+            (o, ops)
+        })
+        .collect();
+    let hists = std::sync::Arc::new(hists);
+    let mut handles = Vec::new();
+    for t in 0..threads {
+        let hists = hists.clone();
+        handles.push(std::thread::spawn(move || {
+            let n = hists.len();
+            // one instance per history, on this thread
+            let mut inst: Vec<(Growable, H263Reader<Growable>, H263State, DecoderOption, Vec<String>, bool)> = hists
+                .iter()
+                .map(|(o, _)| {
+                    let src = Growable(Rc::new(RefCell::new(VecDeque::new())));
+                    let rd = H263Reader::from_source(src.clone());
+                    (src, rd, H263State::new(opts_of(*o)), opts_of(*o), Vec::new(), false)
+                })
+                .collect();
+            let maxlen = hists.iter().map(|(_, ops)| ops.len()).max().unwrap_or(0);
+            for step in 0..maxlen {
+                for k0 in 0..n {
+                    let k = (k0 + t) % n;
+                    let ops = &hists[k].1;
+                    if step >= ops.len() || inst[k].5 {
+                        continue;
+                    }
+                    let op = &ops[step];
+                    let (src, rd, st, o, out, dead) = &mut inst[k];
+                    let mut res = String::new();
+                    if let Some(h) = op.strip_prefix("d:") {
+                        src.0.borrow_mut().extend(unhex(h));
+                        res = decode_once(st, rd, *o);
+                    } else if let Some(h) = op.strip_prefix("a:") {
+                        src.0.borrow_mut().extend(unhex(h));
+                        res.push_str("app");
+                    } else if op == "n" {
+                        res = decode_once(st, rd, *o);
+                    } else if op == "c" {
+                        st.cleanup_buffers();
+                        res.push_str("cleanup");
+                    } else {
+                        res.push_str("bad-op");
+                    }
+                    if res == "PANIC" {
+                        out.push("PANIC".into());
+                        *dead = true;
+                        continue;
+                    }
+                    let rem = remaining_bits(rd);
+                    out.push(format!(
+                        "{} last={} ref={} rem={}",
+                        res,
+                        pic_digest(st.get_last_picture(), false),
+                        pic_digest(st.get_reference_picture(), false),
+                        rem
+                    ));
+                }
+            }
+            inst.into_iter().map(|i| i.4.join(" | ")).collect::<Vec<String>>()
+        }));
+    }
+    let results: Vec<Vec<String>> = handles.into_iter().map(|h| h.join().unwrap_or_default()).collect();
+    let n = hists.len();
+    let mut outs = Vec::new();
+    for k in 0..n {
+        let first = results.first().and_then(|r| r.get(k)).cloned().unwrap_or_else(|| "THREAD-DIED".into());
+        if results.iter().all(|r| r.get(k) == Some(&first)) {
+            outs.push(first);
+        } else {
+            let mut distinct: Vec<String> = results.iter().filter_map(|r| r.get(k).cloned()).collect();
+            distinct.sort();
+            distinct.dedup();
+            outs.push(format!("DIFFER({} variants)", distinct.len()));
+        }
+    }
+    format!("S {}", outs.join(" || "))
+}
